@@ -250,6 +250,17 @@ class Prop:
                         continue
                     cs.append(Case(self.mk(('x', ('A', cnt, mn, mx)), {}), 'items'))
                     cs.append(Case(self.mk(('1', ('L', 'integer', [])), {1: ('x', ('A', cnt, mn, mx))}), 'items-in-type'))
+        # a constant type met through a reference: the referring example is compared with the type's own example as VALUES
+        # (another spelling of the same string - an escape - is the same value)
+        cstr = STRS + ['"a/b"', '"a\\/b"', '"A"', '"\\u0041"', '"\\t"', '"\\u0009"']
+        for group in (cstr, ['0', '-0', '1', '5', '5.0', '5.00', '10', '0.1', '0.10'], OTHERS):
+            for own in group:
+                for v in group:
+                    if lit_kind(own) != lit_kind(v):
+                        continue
+                    t = {1: (own, ('L', lit_kind(own), [('const',)]))}
+                    cs.append(Case(self.mk((v, ('R', [('N', 1)])), t), 'const-through-a-type'))
+                    cs.append(Case(self.mk((v, ('R', [('S', ('L', 'boolean', [])), ('N', 1)])), t), 'const-through-a-type'))
         self.exhaustive_note = ('%d numbers x %d bounds x min/max x exclusive; precision 1-4; %d strings x lengths 0-4; every value against enum lists of 1-2 of 10 '
                                 'entries, against every type, nullable, const, any' % (len(NUMS), len(NUMS), len(STRS)))
 
